@@ -20,6 +20,7 @@ ADAPTATIONS = [
     'int(str) model extended with blanks/sign prefix (validated against CPython)',
     'format(x, spec): symbolic ints/strs kept symbolic for empty and <N/>N specs',
     'math.floor/ceil(symbolic int) -> the int itself (no realisation)',
+    'format(sym int, "0Nx") -> opaque placeholder (diagnostic messages only)',
 ]
 
 _installed = False
@@ -177,6 +178,10 @@ def install():
                         return s + fill * pad
                     return fill * pad + s
                 return s
+            if _HEX_DIAG.match(spec):
+                # zero-padded hex is only used for diagnostics (error_msg
+                # of device errors); keep the value unrealised
+                return '<hex>'
         return format(obj, format_spec)  # next layer
 
     EXTRA[builtins.format] = _format_ext
@@ -212,6 +217,10 @@ def install():
 
     core.Patched.__enter__ = p_enter
     core.Patched.__exit__ = p_exit
+
+
+import re as _re
+_HEX_DIAG = _re.compile(r'^0\d+x$')
 
 
 def _parse_align_spec(spec):
